@@ -1,0 +1,47 @@
+//go:build verif
+
+package filecache
+
+import (
+	"io"
+	"os"
+	"strconv"
+	"strings"
+)
+
+// Verification hooks (build tag `verif` only): WAZERO_VERIF_CRASH=<point>[:<n>] makes the process die, as a crash would,
+// when fileCache.Add reaches the named point (for point "copy": after n bytes of the entry have been written).
+func verifCrashPoint(name string) {
+	if p := os.Getenv("WAZERO_VERIF_CRASH"); p == name {
+		os.Exit(137)
+	}
+}
+
+type verifCrashReader struct {
+	r    io.Reader
+	left int
+}
+
+func (c *verifCrashReader) Read(p []byte) (int, error) {
+	if c.left <= 0 {
+		os.Exit(137)
+	}
+	if len(p) > c.left {
+		p = p[:c.left]
+	}
+	n, err := c.r.Read(p)
+	c.left -= n
+	return n, err
+}
+
+func verifWrapReader(r io.Reader) io.Reader {
+	p := os.Getenv("WAZERO_VERIF_CRASH")
+	if !strings.HasPrefix(p, "copy:") {
+		return r
+	}
+	n, err := strconv.Atoi(strings.TrimPrefix(p, "copy:"))
+	if err != nil {
+		return r
+	}
+	return &verifCrashReader{r: r, left: n}
+}
